@@ -34,9 +34,9 @@ def Returned (r : Run) : Prop := r.end_ = .ok ∨ ∃ c, r.end_ = .err c
 /-- the same for a grpc/json run -/
 def GReturned (r : GRun) : Prop := r.end_ = .ok ∨ ∃ c, r.end_ = .err c
 
-/-- `good` is a complete well-formed piece of a raw file: decoded alone it ends at the end of data
-and leaves no unread bytes (its last entry is complete and its last line is terminated) -/
-def WellFormed (run : Bytes → Run) (good : Bytes) : Prop := (run good).end_ = .ok ∧ (run good).rest = []
+/-- `good` is a complete well-formed piece of a raw file: decoded alone it ends at the end of data, and it is empty or
+ends with a newline (since dbbf16d the raw decoder decodes a last line without newline, which more bytes would lengthen) -/
+def WellFormed (run : Bytes → Run) (good : Bytes) : Prop := (run good).end_ = .ok ∧ Terminated good
 
 /-- `good` is a well-formed piece of a uripost file: decoded alone it ends at the end of data, and it is empty or ends
 with a newline (the uripost decoder also decodes a last line without newline, which more bytes would lengthen) -/
@@ -349,7 +349,7 @@ example : uripostStep true anyUrl junkTrunc = .fail (.err "trunc") := by decide
 example : uripostStep true anyUrl junkHdr = .fail (.err "hdr") := by decide
 example : uripostRun true anyUrl (good1 ++ junkNeg) = ⟨[⟨[116], [47, 97], [104, 101, 108, 108, 111]⟩], .err "size", junkNeg⟩ := by decide
 example : uripostRun true anyUrl huge = ⟨[], .err "trunc", huge⟩ := by decide
-example : WellFormed (rawRun true) rawGood := by unfold WellFormed; decide
+example : WellFormed (rawRun true) rawGood := ⟨by decide, .inr (by decide)⟩
 example : rawStep true rawNeg = .fail (.err "size") := by decide
 example : (uriRun anyUrl uriGood).end_ = .ok ∧ (uriRun anyUrl uriGood).entries.length = 1 := by decide
 example : (uriRun anyUrl (uriGood ++ 10 :: uriJunk)).end_ = .err "hdr" ∧ (uriRun anyUrl (uriGood ++ 10 :: uriJunk)).entries.length = 1 := by decide
